@@ -63,8 +63,19 @@ class PipelineProp(Prop):
         for _ in range(self.n_quick if tier == "quick" else self.n_thorough):
             yield self.gen_case(rng)
 
+    @staticmethod
+    def history_of(case):
+        """which earlier use of the same objects precedes the run (derived from the case, so replays agree)"""
+        if case.get("history") or case.get("pre_run"):
+            return case.get("history")
+        import hashlib
+        import json
+
+        h = int(hashlib.sha1(json.dumps(case.get("pretext"), sort_keys=True).encode()).hexdigest()[:6], 16) % 10
+        return {0: "target_first", 1: "target_first", 2: "flipped_first", 3: "retag"}.get(h)
+
     def run_impl(self, case):
-        return P.run_pipeline({**case, "twice": True})
+        return P.run_pipeline({**case, "twice": True, "history": self.history_of(case)})
 
     def judge(self, case, obs):
         if isinstance(obs, dict) and obs.get("second_call"):
